@@ -137,6 +137,15 @@ def judge_a(t):
                 V('C10.4-nodeps', 'dependency %s is reported %s under noDeps' % (m, R.get(m)), what='dependency-status', status=str(R.get(m)))
             if m in puts and m not in borrowed:
                 V('C10.4-nodeps', 'dependency %s was written under noDeps' % m, what='dependency-written')
+    # time-comparing searchers: ground truth from the scenario (the stored copy's stamp vs the stamp the scenario gave the source)
+    if not rebuild:
+        for m in sorted(parsed):
+            if m in true_mtime:
+                holders = [i for i, se in enumerate(scn.get('searchers', ())) if se.get('flavour') == 'age' and se.get('have', {}).get(m) is not None and se['have'][m] >= true_mtime[m]]
+                if holders and not any(c.injected for c in t.by('searcher.fileExists') if c.mib == m):
+                    if m in gen_calls or m in puts or str(R.get(m)) != 'untouched':
+                        V('C10.2-untouched', 'searcher %d holds a copy of %s stamped %s, the source is stamped %s, yet the module is %s' % (
+                            holders[0], m, scn['searchers'][holders[0]]['have'][m], true_mtime[m], 'generated' if m in gen_calls else R.get(m)), what='fresh-by-ground-truth')
     # the real StubSearcher: up to date exactly for the names on its list
     for i, se in enumerate(scn.get('searchers', ())):
         if se.get('flavour') == 'realstub':
